@@ -41,7 +41,7 @@ MANIFEST = {
                  "Write/Read cycle + trace validation of the recorded cycles against FontCycleTrace.tla",
 }
 
-_BAD = re.compile(r'^<<"BADCASE", (-?\d+), (\d+), "(\w+)", \{(.*)\}>>$')
+_BAD = re.compile(r'<<\s*"BADCASE\|(-?\d+)\|(\d+)\|(\w+)\|([^"]*)"\s*>>')
 
 
 # --------------------------------------------------------------------------- case construction
@@ -131,12 +131,12 @@ def _run_chunks(ctx, binp, cases, d, name, size):
 
 
 def _bad_cases(res):
+    """BADCASE reports of FontCycleTrace (read from the TLC output itself: TLC wraps long tuples)."""
     bad = []
-    for line in res.prints:
-        m = _BAD.match(line.strip())
-        if m:
-            why = sorted(x.strip().strip('"') for x in m.group(4).split(",") if x.strip())
-            bad.append({"case": int(m.group(1)), "line": int(m.group(2)), "clause": m.group(3), "why": why})
+    text = open(res.out_path, errors="replace").read()
+    for m in _BAD.finditer(text):
+        why = sorted(x.strip() for x in m.group(4).split(",") if x.strip())
+        bad.append({"case": int(m.group(1)), "line": int(m.group(2)), "clause": m.group(3), "why": why})
     return bad
 
 
@@ -286,6 +286,10 @@ def _model(ctx):
                              % r.violated)
         else:
             ctx.notes.append("model prediction: every table set is a fixed point after the first read")
+        r = ctx.tlc("FontCycle", cfg="FontCycleTabsFPRepaired.cfg", timeout=1500, count=False,
+                    label="FontCycle, source tables, reader with the repair of proposed-fixes/C01-2 (design check)")
+        ctx.notes.append("model with the reader repaired as in proposed-fixes/C01-2.diff: first cycle is a fixed point for every "
+                         "table set: %s" % ("yes (TLC, exhaustive)" if r.ok else "NO, counterexample to %s" % r.violated))
     ctx.cov["exhaustive"] = True
     ctx.cov["bounds"] = {
         "built": "6 style flags x weight x width x angle {0, exact, rounds-to-0, inexact} x family {plain, Bold, Italic, Semi Bold} "
